@@ -9,7 +9,9 @@ from .stmt import (
 from .expr import Type, Expr, Lvalue, NumericLiteral, FuncCall
 from .program import Label, LineNo
 from .codegen import CodeGen
-from .exceptions import ErrorCode as EC, InternalError, CompileError
+from .exceptions import (
+    ErrorCode as EC, InternalError, CompileError, EvalError,
+)
 from .parser import parse_string
 from .evalctx import EvaluationContext, Routine
 
@@ -566,6 +568,19 @@ class Pass2(CompilePass):
         if not node.value.is_const:
             raise CompileError(
                 EC.INVALID_CONSTANT,
+                node=node.value)
+
+        # the value must be computable now: it is substituted where
+        # the constant is used and recorded in the debug info
+        try:
+            node.value.eval()
+        except EvalError as e:
+            raise CompileError(
+                EC.TYPE_MISMATCH, str(e), node=node.value)
+        except ArithmeticError:
+            raise CompileError(
+                EC.INVALID_CONSTANT,
+                'Constant expression cannot be evaluated',
                 node=node.value)
 
         if node.parent_routine == self.compilation.main_routine:
